@@ -47,6 +47,7 @@ struct Extractor {
   json::Array Functions, Tables, Records, Enums, Globals, Switches, Protos;
   std::set<const FunctionDecl *> Emitted;
   std::deque<const FunctionDecl *> Queue;  // lambdas discovered in bodies
+  std::set<const FunctionDecl *> QueuedSpecs;  // instantiated call operators of generic lambdas already queued
   std::map<const Decl *, unsigned> LocalIds;
   unsigned NextLocal = 0;
   const FunctionDecl *CurFn = nullptr;
@@ -140,6 +141,17 @@ struct Extractor {
         const DeclContext *DC = M->getParent()->getDeclContext();
         while (DC && !isa<FunctionDecl>(DC)) DC = DC->getParent();
         if (DC) OS << " in " << fnKey(cast<FunctionDecl>(DC));
+        // an instantiation of a generic lambda's call operator: told apart by its parameter types
+        if (M->getPrimaryTemplate()) {
+          OS << " <";
+          bool first = true;
+          for (auto *P : M->parameters()) {
+            if (!first) OS << ", ";
+            first = false;
+            OS << typeStr(P->getType());
+          }
+          OS << ">";
+        }
         return OS.str();
       }
     }
@@ -615,6 +627,18 @@ struct Extractor {
       if (Op) {
         O["fn"] = fnKey(Op);
         if (Op->hasBody() && !Op->isDependentContext()) Queue.push_back(Op);
+        // generic lambda ([](const auto& x) {...}): its call operator is a template; the bodies that exist are the
+        // specialisations the algorithms it is handed to have instantiated
+        if (const FunctionTemplateDecl *FT = Op->getDescribedFunctionTemplate()) {
+          json::Array Insts;
+          for (const FunctionDecl *Spec : FT->specializations()) {
+            if (Spec->hasBody() && !Spec->isDependentContext() && QueuedSpecs.insert(Spec->getCanonicalDecl()).second) {
+              Queue.push_back(Spec);
+            }
+            if (Spec->hasBody() && !Spec->isDependentContext()) Insts.push_back(fnKey(Spec));
+          }
+          O["instances"] = std::move(Insts);
+        }
       }
       json::Array Caps;
       for (auto &C : LE->captures()) {
